@@ -128,6 +128,8 @@ impl IOQueue {
     pub fn clear_but_last(&mut self) {
         if self.chunks.len() > 1 {
             self.chunks.drain(1..);
+            // only unread part of the first chunk is left
+            self.length = self.as_slice().len();
         }
     }
 
